@@ -364,7 +364,12 @@ func (fs *Fs) RemoveAll(path string) error {
 		}
 	}
 
-	return fs.Remove(path)
+	err = fs.Remove(path)
+	if errors.Is(err, ErrFileNotFound) {
+		// a folder without a placeholder object ceases to exist with its last child
+		return nil
+	}
+	return err
 }
 
 func (fs *Fs) Rename(oldName, newName string) error {
